@@ -172,7 +172,7 @@ class Probe:
         return "print(%s.%s(%s));" % (r, f, a)
 
     def snippet(self):
-        return 'print("@"); try { %s } catch e { print("!"); print(type(e)); print(e.context); }' % self.body()
+        return 'print("@@probe"); try { %s } catch e { print("!!error"); print(type(e)); print(e.context); }' % self.body()
 
     def to_json(self):
         return {"fn": self.fn, "extra": self.extra, "recv": self.recv, "args": self.args, "shape": self.shape}
@@ -407,6 +407,7 @@ def valid_kind(b):
 # ------------------------------------------------------------------------------------------
 # running
 
+MARK, EMARK = b"@@probe", b"!!error"
 STOP_RE = re.compile(rb"<StopIter instance @ 0x[0-9a-f]+>")
 
 
@@ -421,7 +422,7 @@ def parse_program_output(rec, n):
     raw = [yvlib.unhx(x[0]) if x and x[0] else b"" for x in rec.tagged("O")]
     chunks = []
     for l in raw:
-        if l == b"@":
+        if l == MARK:
             chunks.append([])
         elif not chunks:
             return None
@@ -434,8 +435,8 @@ def parse_program_output(rec, n):
 
 def render_chunk(c):
     c = [STOP_RE.sub(b"<StopIter instance @ A>", l) for l in c]
-    if b"!" in c:
-        i = c.index(b"!")
+    if EMARK in c:
+        i = c.index(EMARK)
         rest = c[i + 1:]
         m = re.match(rb"<class (\w+)>$", rest[0]) if rest else None
         if i == 0 and m and len(rest) == 2:
